@@ -27,7 +27,8 @@ func (df *DeflateReader) Read(p []byte) (n int, err error) {
 
 func (df *DeflateReader) Close() error {
 	if df.dr != nil {
-		return df.dr.Close()
+		// flate's reader does not close its source
+		df.dr.Close()
 	}
 	return df.Body.Close()
 }
